@@ -132,6 +132,14 @@ def finder(ctx, n):
         eang = [euclid_angle(C[k], D[k]) for k in range(4)]
         if not numpy.allclose(L.angle(U, V), eang, atol=1e-6) or not numpy.isclose(L.angle(U[1], V[1]), eang[1], atol=1e-6):
             probs.append("angle")
+        # parallel and antiparallel pairs (the cosine can overshoot +-1 by one ulp): 0 and 180 degrees, in every calling form
+        W = numpy.array([[0.34, -0.17, 0.12], [1.0, 0.0, 0.0], [rng.uniform(-1, 1), rng.uniform(-1, 1), 0.7], [0.25, 0.5, -0.75]])
+        for kfac, want in ((1.0, 0.0), (2.0, 0.0), (0.37, 0.0), (-1.0, 180.0), (-2.5, 180.0)):
+            got = numpy.concatenate([numpy.atleast_1d(L.angle(W, kfac * W)), numpy.atleast_1d(L.angle(W[0], kfac * W[:1])),
+                                     [L.angle(W[2], kfac * W[2])]])
+            if not numpy.allclose(got, want, atol=1e-4):
+                probs.append("angle of parallel vectors (factor %g): %s, Euclidean %g" % (kfac, got.tolist(), want))
+                break
         H = numpy.array([[rng.randint(-4, 4) for _ in range(3)] for _ in range(4)], dtype=float)
         Hc = H @ numpy.linalg.inv(B).T
         if not numpy.allclose(L.rnorm(H), numpy.linalg.norm(Hc, axis=1), rtol=tol, atol=1e-9):
